@@ -58,6 +58,11 @@ package agent
 //@   requires unlocked: !held(a.PortFwdsMtx) && !held(a.SocksCliMtx) && !held(a.SocksSvrMtx)
 //@   modifies *
 //@   guard accepted: accepted(a, teamserver, RequestID, CommandID)
+// C08 (upward): a relayed callback is looked up by, decrypted with the key of, and
+// dispatched on (hence gated by the tasks of) the agent named in its inner header.
+//@   guard-call relayid:   "AgentInstance#3" arg(1) == AgentHdr.AgentID
+//@   guard-call relaykey:  "DecryptBuffer" sameslice(arg(1), PivotAgent.Encryption.AESKey) && sameslice(arg(2), PivotAgent.Encryption.AESIv)
+//@   guard-call relaygate: "TaskDispatch" arg(0) == PivotAgent && arg(0) != nil
 
 // ---------------------------------------------------------------------------
 // Representation invariant of a registered session: the AES key and IV have the
@@ -89,21 +94,6 @@ package agent
 //@   requires nonnil: a != nil && Console != nil
 //@   modifies *
 
-//@ func (a *Agent) DownloadAdd(FileID int, FilePath string, FileSize int64) (err error)
-//@   requires nonnil: a != nil && logr.LogrInstance != nil
-//@   modifies *
-//@ func (a *Agent) DownloadWrite(FileID int, data []byte) (err error)
-//@   requires entries: forall(i, 0, len(a.Downloads), a.Downloads[i] != nil)
-//@   requires nonnil: a != nil
-//@   modifies *
-//@ func (a *Agent) DownloadClose(FileID int)
-//@   requires entries: forall(i, 0, len(a.Downloads), a.Downloads[i] != nil)
-//@   requires nonnil: a != nil
-//@   modifies *
-//@ func (a *Agent) DownloadGet(FileID int) (r *Download)
-//@   requires entries: forall(i, 0, len(a.Downloads), a.Downloads[i] != nil)
-//@   requires nonnil: a != nil
-//@   pure
 
 //@ func (a *Agent) PortFwdNew(SocketID int, LclAddr int, LclPort int, FwdAddr int, FwdPort int, Target string)
 //@   requires unlocked: !held(a.PortFwdsMtx)
@@ -246,3 +236,45 @@ package agent
 //@   guard-call body: "AddBytes" sameslice(arg(1), Payload)
 //@   loop "for"
 //@     invariant chain: pivots != nil && pivots.Parent != nil && err == nil
+
+// ---------------------------------------------------------------------------
+// C07: loot containment and the download table.
+// inside(x, d): x is d itself or lies below it.
+//@ spec inside(x, d) = x == d || prefixof(d + "/", x)
+
+// Every directory or file DownloadAdd creates is reached only after the cleaned
+// target directory was found inside <AgentPath>/<id>/Download (with a separator:
+// a sibling such as .../Downloadx does not count).
+//@ func (a *Agent) DownloadAdd(FileID int, FilePath string, FileSize int64) (err error)
+//@   requires nonnil: a != nil && logr.LogrInstance != nil && forall(i, 0, len(a.Downloads), a.Downloads[i] != nil)
+//@   modifies a.Downloads, a.Downloads[len(a.Downloads)]
+//@   guard-call contain: "MkdirAll|Create" inside(path, logr.LogrInstance.AgentPath + "/" + a.NameID + "/Download")
+//@   ensures opened: err == nil ==> (len(a.Downloads) == old(len(a.Downloads)) + 1 && a.Downloads[old(len(a.Downloads))] != nil && a.Downloads[old(len(a.Downloads))].FileID == FileID && forall(k, 0, old(len(a.Downloads)), a.Downloads[k] == old(a.Downloads)[k]))
+//@   ensures failed: err != nil ==> sameslice(a.Downloads, old(a.Downloads))
+
+// A chunk goes to the first open entry with that id and to nothing else; if there is none, an error and no write.
+//@ func (a *Agent) DownloadWrite(FileID int, data []byte) (err error)
+//@   requires nonnil: a != nil && forall(i, 0, len(a.Downloads), a.Downloads[i] != nil)
+//@   modifies *
+//@   guard-call first: "Write" a.Downloads[i].FileID == FileID && forall(k, 0, i, a.Downloads[k].FileID != FileID) && arg(0) == a.Downloads[i].File && sameslice(arg(1), data)
+//@   ensures unknown: forall(k, 0, old(len(a.Downloads)), old(a.Downloads)[k].FileID != FileID) ==> err != nil
+//@   loop "for i := range a.Downloads"
+//@     invariant none: forall(k, 0, idx__, a.Downloads[k].FileID != FileID) && forall(j, 0, len(a.Downloads), a.Downloads[j] != nil)
+
+// Closing removes exactly the first entry with that id; the others keep their order.
+//@ func (a *Agent) DownloadClose(FileID int)
+//@   requires nonnil: a != nil && forall(i, 0, len(a.Downloads), a.Downloads[i] != nil)
+//@   modifies a.Downloads, elems(a.Downloads)
+//@   ensures absent:  forall(k, 0, old(len(a.Downloads)), old(a.Downloads)[k].FileID != FileID) ==> a.Downloads == old(a.Downloads)
+//@   ensures removed: forall(j, 0, old(len(a.Downloads)), (old(a.Downloads)[j].FileID == FileID && forall(k, 0, j, old(a.Downloads)[k].FileID != FileID)) ==> a.Downloads == cat(old(a.Downloads)[:j], old(a.Downloads)[j+1:]))
+//@   loop "for i := range a.Downloads"
+//@     invariant none: forall(k, 0, idx__, a.Downloads[k].FileID != FileID)
+//@     invariant same: sameslice(a.Downloads, old(a.Downloads)) && a.Downloads == old(a.Downloads)
+
+//@ func (a *Agent) DownloadGet(FileID int) (r *Download)
+//@   requires nonnil: a != nil && forall(i, 0, len(a.Downloads), a.Downloads[i] != nil)
+//@   pure
+//@   ensures found: r != nil ==> (r.FileID == FileID && exists(i, 0, len(a.Downloads), a.Downloads[i] == r && forall(k, 0, i, a.Downloads[k].FileID != FileID)))
+//@   ensures none:  r == nil ==> forall(k, 0, len(a.Downloads), a.Downloads[k].FileID != FileID)
+//@   loop "for _, download := range a.Downloads"
+//@     invariant none: forall(k, 0, idx__, a.Downloads[k].FileID != FileID)
